@@ -28,6 +28,7 @@ import (
 	"syscall"
 	"time"
 
+	"github.com/google/inverting-proxy/utils/tcpbridge/connection"
 	"github.com/google/inverting-proxy/zz_verif/vx"
 )
 
@@ -42,6 +43,7 @@ type httpCase struct {
 	method, target string
 	hdr            [][2]string
 	body           int
+	upgrade        bool // a websocket handshake (for a path that is not the bridge's own)
 }
 
 type bcase struct {
@@ -87,9 +89,13 @@ func build(tier string) {
 	if th {
 		cases = append(cases, bcase{p: &plan{up: []int{8 << 20}, down: []int{8 << 20}, rbuf: 65536}})
 	}
+	// websocket handshakes that are not the bridge's own: the backend application's websocket endpoints
+	for _, t := range []string{"/ws", "/", connection.StreamingPath + "/sub", "/a/" + strings.TrimPrefix(connection.StreamingPath, "/")} {
+		cases = append(cases, bcase{h: &httpCase{method: "GET", target: t, hdr: [][2]string{{"X-A", "1"}, {"Sec-WebSocket-Protocol", "chat"}}, upgrade: true}})
+	}
 	// all 256 byte values in one write are part of pattern(): see there
 	for _, m := range []string{"GET", "POST", "PUT", "DELETE", "OPTIONS"} {
-		for _, t := range []string{"/", "/a%2Fb?x=1&x=2", "/tcp-over-ws-bridge/other", "/%E2%82%AC?q=%20"} {
+		for _, t := range []string{"/", "/a%2Fb?x=1&x=2", "/tcp-over-ws-bridge/other", "/%E2%82%AC?q=%20", connection.StreamingPath, connection.StreamingPath + "?x=1", connection.StreamingPath + "/"} {
 			for _, n := range []int{0, 1, 5000, 70000} {
 				if n > 0 && (m == "GET" || m == "OPTIONS" || m == "DELETE") {
 					continue
@@ -460,6 +466,13 @@ func evalHTTP(r *rig, c bcase, i int) vx.Exec {
 	for _, kv := range c.h.hdr {
 		fmt.Fprintf(&raw, "%s: %s\r\n", kv[0], kv[1])
 	}
+	if c.h.upgrade {
+		raw.Reset()
+		fmt.Fprintf(&raw, "GET %s HTTP/1.1\r\nHost: app.example:8443\r\nX-Case: %s\r\nConnection: Upgrade\r\nUpgrade: websocket\r\nSec-WebSocket-Version: 13\r\nSec-WebSocket-Key: dGhlIHNhbXBsZSBub25jZQ==\r\n", c.h.target, id)
+		for _, kv := range c.h.hdr {
+			fmt.Fprintf(&raw, "%s: %s\r\n", kv[0], kv[1])
+		}
+	}
 	if c.h.body > 0 || c.h.method == "POST" || c.h.method == "PUT" {
 		fmt.Fprintf(&raw, "Content-Length: %d\r\n", len(body))
 	}
@@ -502,6 +515,9 @@ func evalHTTP(r *rig, c bcase, i int) vx.Exec {
 		if strings.Join(seen.Header[k], "|") != strings.Join(v, "|") {
 			x.Violations = append(x.Violations, fmt.Sprintf("PASSTHROUGH: header %s reached the backend port as %q, the client sent %q (%s)", k, seen.Header[k], v, c))
 		}
+	}
+	if c.h.upgrade && !strings.EqualFold(seen.Header.Get("Upgrade"), "websocket") {
+		x.Violations = append(x.Violations, fmt.Sprintf("PASSTHROUGH: a websocket handshake for %s reached the backend port without its Upgrade field (%v)", c.h.target, seen.Header))
 	}
 	if !bytes.Equal(sbody, body) {
 		x.Violations = append(x.Violations, fmt.Sprintf("PASSTHROUGH: the backend port received a body of %d bytes, the client sent %d (first difference at %d) (%s)", len(sbody), len(body), firstDiff(sbody, body), c))
